@@ -1878,6 +1878,151 @@ fn fam_d(ctx: &mut Ctx, pool: &Pool) {
 // ------------------------------------------------------------------------------------------
 // family E: explicit session keys of every cipher, every kind of wrong session key
 
+/// Family O: the order of builder operations. Recipients (key `K`, password `P`) and a caller-chosen session
+/// key (`S`) are added in every order; a sequence the builder accepts must give a message that every recipient
+/// opens alone (a sequence the builder refuses is fine).
+fn fam_o(ctx: &mut Ctx, pool: &Pool) {
+    let orders = ["SK", "KS", "SP", "PS", "SKP", "KSP", "KPS", "SPK", "PSK", "PKS", "KKS", "KSK"];
+    let fast: Vec<usize> = (0..pool.keys.len()).filter(|k| !pool.keys[*k].is_rsa).collect();
+    let reps = ctx.qt(2u64, 12u64);
+    for rep in 0..reps {
+        for v2 in [false, true] {
+            for (oi, order) in orders.iter().enumerate() {
+                if !ctx.mine() {
+                    continue;
+                }
+                let mut rng = ctx.rng("O", rep * 1000 + oi as u64 * 2 + v2 as u64);
+                let sym = if v2 { V2_CIPHERS[(oi + rep as usize) % 3] } else { V1_CIPHERS[(oi + rep as usize * 5) % 11] };
+                let payload = gen_payload(&mut rng);
+                let mut sk = vec![0u8; sym.key_size()];
+                rng.fill_bytes(&mut sk);
+                crate::core::describe_case(&format!("C18 family O order {order} v2={v2}"));
+                let replay = json!({"family": "O", "order": order, "v2": v2, "sym": u8::from(sym), "session_key": hexs(&sk), "payload": hexs(&payload)});
+                let mut used_keys: Vec<usize> = vec![];
+                let mut used_pws: Vec<String> = vec![];
+                let pw_text = format!("o-pw-{rep}-{oi}");
+                // the candidate keys of this case (distinct)
+                let cand: Vec<usize> = {
+                    let mut c = fast.clone();
+                    c.retain(|k| !v2 || pool.keys[*k].v6 || true);
+                    c.shuffle(&mut rng);
+                    c.truncate(2);
+                    c
+                };
+                let built: Option<Result<Vec<u8>, String>> = ctx.guarded("C18/O/build", || replay.clone(), || {
+                    if v2 {
+                        let mut b = MessageBuilder::from_bytes("", payload.clone()).seipd_v2(&mut rng, sym, AeadAlgorithm::Ocb, ChunkSize::C64B);
+                        let mut ki = 0usize;
+                        for op in order.chars() {
+                            match op {
+                                'S' => b.set_session_key(sk.clone().into()).map(|_| ()).map_err(|e| format!("set_session_key: {e}"))?,
+                                'K' => {
+                                    let k = cand[ki % cand.len()];
+                                    ki += 1;
+                                    let pk = &pool.keys[k];
+                                    let public = pk.plain.to_public_key();
+                                    if pk.enc_primary {
+                                        b.encrypt_to_key(&mut rng, &public.primary_key).map(|_| ()).map_err(|e| format!("encrypt_to_key: {e}"))?;
+                                    } else {
+                                        b.encrypt_to_key(&mut rng, &public.public_subkeys[0].key).map(|_| ()).map_err(|e| format!("encrypt_to_key: {e}"))?;
+                                    }
+                                    used_keys.push(k);
+                                }
+                                _ => {
+                                    let s2k = mk_s2k(oi, &mut rng);
+                                    b.encrypt_with_password(&mut rng, s2k, &pw_text.as_str().into()).map(|_| ()).map_err(|e| format!("encrypt_with_password: {e}"))?;
+                                    used_pws.push(pw_text.clone());
+                                }
+                            }
+                        }
+                        b.to_vec(&mut rng).map_err(|e| format!("to_vec: {e}"))
+                    } else {
+                        let mut b = MessageBuilder::from_bytes("", payload.clone()).seipd_v1(&mut rng, sym);
+                        let mut ki = 0usize;
+                        for op in order.chars() {
+                            match op {
+                                'S' => b.set_session_key(sk.clone().into()).map(|_| ()).map_err(|e| format!("set_session_key: {e}"))?,
+                                'K' => {
+                                    let k = cand[ki % cand.len()];
+                                    ki += 1;
+                                    let pk = &pool.keys[k];
+                                    let public = pk.plain.to_public_key();
+                                    if pk.enc_primary {
+                                        b.encrypt_to_key(&mut rng, &public.primary_key).map(|_| ()).map_err(|e| format!("encrypt_to_key: {e}"))?;
+                                    } else {
+                                        b.encrypt_to_key(&mut rng, &public.public_subkeys[0].key).map(|_| ()).map_err(|e| format!("encrypt_to_key: {e}"))?;
+                                    }
+                                    used_keys.push(k);
+                                }
+                                _ => {
+                                    let s2k = mk_s2k(oi, &mut rng);
+                                    b.encrypt_with_password(s2k, &pw_text.as_str().into()).map(|_| ()).map_err(|e| format!("encrypt_with_password: {e}"))?;
+                                    used_pws.push(pw_text.clone());
+                                }
+                            }
+                        }
+                        b.to_vec(&mut rng).map_err(|e| format!("to_vec: {e}"))
+                    }
+                });
+                ctx.eval();
+                ctx.cover(&("O", *order, v2, rep));
+                let bytes = match built {
+                    None => continue,
+                    Some(Err(e)) => {
+                        ctx.tally("O.sequence-refused-by-builder", 1);
+                        ctx.seen("O.refused", format!("{order}/v{}: {}", if v2 { 2 } else { 1 }, e.split(':').next().unwrap_or("")));
+                        continue;
+                    }
+                    Some(Ok(b)) => b,
+                };
+                ctx.seen("O.accepted", format!("{order}/v{}", if v2 { 2 } else { 1 }));
+                // every recipient alone
+                for k in &used_keys {
+                    let pk = &pool.keys[*k];
+                    let r = ctx.guarded("C18/O/decrypt", || replay.clone(), || -> Result<Vec<u8>, String> {
+                        let m = Message::from_bytes(&bytes[..]).map_err(|e| format!("parse: {e}"))?;
+                        let mut d = m.decrypt(&Password::empty(), &pk.plain).map_err(|e| format!("decrypt: {e}"))?;
+                        let mut out = vec![];
+                        std::io::Read::read_to_end(&mut d, &mut out).map_err(|e| format!("read: {e}"))?;
+                        Ok(out)
+                    });
+                    ctx.eval();
+                    match r {
+                        Some(Ok(out)) if out == payload => {}
+                        Some(Ok(_)) => ctx.violation(format!("C18/O/key-recipient/wrong-plaintext/{order}"), format!("builder sequence {order} (SEIPDv{}): key recipient {} reads other data", if v2 { 2 } else { 1 }, pk.label), replay.clone()),
+                        Some(Err(e)) => ctx.violation(
+                            format!("C18/O/key-recipient/cannot-decrypt/{order}"),
+                            format!("builder sequence {order} (SEIPDv{}) was accepted, but key recipient {} cannot open the message: {e}", if v2 { 2 } else { 1 }, pk.label),
+                            replay.clone(),
+                        ),
+                        None => {}
+                    }
+                }
+                for pw in &used_pws {
+                    let r = ctx.guarded("C18/O/decrypt", || replay.clone(), || -> Result<Vec<u8>, String> {
+                        let m = Message::from_bytes(&bytes[..]).map_err(|e| format!("parse: {e}"))?;
+                        let mut d = m.decrypt_with_password(&pw.as_str().into()).map_err(|e| format!("decrypt: {e}"))?;
+                        let mut out = vec![];
+                        std::io::Read::read_to_end(&mut d, &mut out).map_err(|e| format!("read: {e}"))?;
+                        Ok(out)
+                    });
+                    ctx.eval();
+                    match r {
+                        Some(Ok(out)) if out == payload => {}
+                        Some(Ok(_)) => ctx.violation(format!("C18/O/password-recipient/wrong-plaintext/{order}"), format!("builder sequence {order}: password recipient reads other data"), replay.clone()),
+                        Some(Err(e)) => ctx.violation(
+                            format!("C18/O/password-recipient/cannot-decrypt/{order}"),
+                            format!("builder sequence {order} (SEIPDv{}) was accepted, but the password recipient cannot open the message: {e}", if v2 { 2 } else { 1 }),
+                            replay.clone(),
+                        ),
+                        None => {}
+                    }
+                }
+            }
+        }
+    }
+}
+
 fn fam_e(ctx: &mut Ctx, pool: &Pool) {
     let reps = ctx.qt(1u64, 20u64);
     let mut combos: Vec<(bool, SymmetricKeyAlgorithm, AeadAlgorithm)> = vec![];
@@ -1955,4 +2100,5 @@ pub fn run(ctx: &mut Ctx) {
     fam_c(ctx, &pool);
     fam_d(ctx, &pool);
     fam_e(ctx, &pool);
+    fam_o(ctx, &pool);
 }
